@@ -42,6 +42,7 @@ import (
 	"fmt"
 	"go/constant"
 	"go/token"
+	"math"
 	"math/big"
 	"sort"
 	"strings"
@@ -78,6 +79,8 @@ func checkC04(ctx *Ctx, r *Report, tier string) {
 	checkDistanceSearchExits(ctx, r)
 	checkBuildKeepsNoSharedState(ctx, r)
 	checkWindingTraversalTests(ctx, r)
+	checkSegmentRecord(ctx, r)
+	checkClosingEdge(ctx, r)
 }
 
 var windingConvention = true // lower endpoint closed (set by W1 on the real function)
@@ -933,4 +936,152 @@ func checkWindingTraversalTests(ctx *Ctx, r *Report) {
 	}
 	r.check("W12", "qtNode.winding|traversal-decided-by-signs-and-nil-tests-only", fn.Pos(), bad == "" && n >= 3, fmt.Sprintf("%d branches;%s", n, bad))
 	r.floor("W12", 1)
+}
+
+// checkSegmentRecord (W13): the record built for a segment keeps the edge's own direction: the
+// stored unit vector times the stored length is the edge vector, with no case distinction. A
+// "clean-up" that zeroes small components turns an edge that rises by a few ulps (trigonometric
+// vertices do that) into a horizontal one for the side test while the crossing rule still sees
+// it rise: the half-open rule then miscounts on the level of its lower end.
+func checkSegmentRecord(ctx *Ctx, r *Report) {
+	fn := ctx.ssaFunc("sdf", "newLineInfo")
+	if fn == nil {
+		r.undecided("W13", "newLineInfo", 0, "not found")
+		return
+	}
+	ev := newEval(ctx)
+	res, st := ev.evalRoot(fn)
+	obj, ok := resultObject(res, st)
+	if !ok {
+		r.undecided("W13", "newLineInfo", fn.Pos(), "the result is not a fresh record")
+		return
+	}
+	m := map[string]*Term{}
+	leafTerms("", obj, m)
+	l := paramName(fn, 0)
+	bad := ""
+	var length *Term
+	for k, t := range m {
+		if strings.Contains(strings.ToLower(k), "length") {
+			length = t
+		}
+	}
+	for _, ax := range []string{"X", "Y"} {
+		var u *Term
+		for k, t := range m {
+			if strings.HasSuffix(k, "."+ax) && strings.Contains(strings.ToLower(k), "unit") {
+				u = t
+			}
+		}
+		d := Sub(A(l+"[1]."+ax), A(l+"[0]."+ax))
+		switch {
+		case u == nil || length == nil:
+			bad += " no unit vector / length field found;"
+		case len(findSub(u, func(x *Term) bool { return x.Op == "ite" || x.Op == "cmp" })) > 0:
+			bad += " direction." + ax + " depends on a test: " + shortKey(u.Key(), 120) + ";"
+		case !equalRat(Mul(u, length), d):
+			bad += " direction." + ax + "·length is not the edge vector: " + shortKey(u.Key(), 120) + ";"
+		}
+	}
+	r.check("W13", "newLineInfo|direction-is-the-normalised-edge-vector", fn.Pos(), bad == "", "unitVector·length ≡ l[1] − l[0] on both axes, no case distinction;"+bad)
+	r.floor("W13", 1)
+}
+
+// checkClosingEdge (W14): a closed outline gets its closing edge unless the last vertex repeats
+// the first - decided by the vertex comparison of the library with the library's tolerance, and
+// by nothing else. (A squared distance compared with the un-squared tolerance treats a last
+// vertex 3e-5 away as a repeat: the closing edge is dropped, the outline is open, and the sign
+// is wrong in a half-infinite strip level with the gap.)
+func checkClosingEdge(ctx *Ctx, r *Report) {
+	fn := ctx.ssaFunc("sdf", "VertexToLine")
+	if fn == nil {
+		r.undecided("W14", "VertexToLine", 0, "not found")
+		return
+	}
+	ev := newEval(ctx, "Equals")
+	ev.evalRoot(fn)
+	vtx, closed := paramName(fn, 0), paramName(fn, 1)
+	var app *Event
+	for i, e := range ev.Events {
+		if e.Callee == "append" && len(e.Args) >= 1 && valKey(e.Args[0]) == "sym:"+vtx {
+			app = &ev.Events[i]
+		}
+	}
+	if app == nil || app.Cond == nil {
+		r.undecided("W14", "VertexToLine", fn.Pos(), "no conditional append of the closing vertex found")
+		return
+	}
+	bad := ""
+	nEq := 0
+	var flat func(t *Term) []*Term
+	flat = func(t *Term) []*Term {
+		if t.Op == "ite" && len(t.Args) == 3 && t.Args[2].IsZero() {
+			return append(flat(t.Args[0]), flat(t.Args[1])...)
+		}
+		var out []*Term
+		for _, c := range conjuncts(t) {
+			if c.Key() == t.Key() {
+				return []*Term{t}
+			}
+			out = append(out, flat(c)...)
+		}
+		return out
+	}
+	for _, c := range flat(app.Cond) {
+		k := c.Key()
+		switch {
+		case strings.Contains(k, "len("+vtx+")") && !strings.Contains(k, ".Equals"):
+		case k == closed || k == Cmp("!=", A(closed), K(0)).Key() || k == Not(Cmp("==", A(closed), K(0))).Key():
+		case c.Op == "not" && c.Args[0].Op == "call" && strings.HasSuffix(c.Args[0].S, ".Equals"):
+			nEq++
+			eq := c.Args[0]
+			if len(eq.Args) != 3 {
+				bad += " unexpected comparison " + shortKey(k, 100) + ";"
+				break
+			}
+			a, b := eq.Args[0].Key(), eq.Args[1].Key()
+			first := strings.Contains(a, vtx+"[0]") || strings.Contains(b, vtx+"[0]")
+			last := strings.Contains(a, "len("+vtx+")") || strings.Contains(b, "len("+vtx+")")
+			tol, isC := eq.Args[2], eq.Args[2].IsConst()
+			f := 0.0
+			if isC {
+				f, _ = tol.C.Float64()
+			}
+			if !first || !last || !isC || f <= 0 || f > 1e-6 {
+				bad += " the comparison is not first-vertex vs last-vertex within the package tolerance: " + shortKey(k, 140) + ";"
+			}
+		default:
+			bad += " the closing edge also depends on " + shortKey(k, 120) + ";"
+		}
+	}
+	if nEq == 0 {
+		// the comparison is written out: decide the same statement on the closed form, for last −
+		// first on a grid around the tolerance
+		bad = ""
+		lastX, lastY := vtx+"[+(-1,len("+vtx+"))].X", vtx+"[+(-1,len("+vtx+"))].Y"
+		n := 0
+		for _, dx := range []float64{0, 5e-10, -5e-10, 2e-9, -2e-9, 1e-5, -3e-5, 1} {
+			for _, dy := range []float64{0, 5e-10, 2e-9, -1e-5, 1} {
+				env := map[string]float64{"len(" + vtx + ")": 5, closed: 1, vtx + "[0].X": 0.25, vtx + "[0].Y": -0.5, lastX: 0.25 + dx, lastY: -0.5 + dy}
+				got, ok := evalFloat(app.Cond, env)
+				if !ok {
+					bad = " the condition of the closing edge is not a closed form of the two vertices: " + shortKey(app.Cond.Key(), 200) + ";"
+					break
+				}
+				n++
+				want := math.Abs(dx) > 1e-9 || math.Abs(dy) > 1e-9
+				if (got != 0) != want && len(bad) < 200 {
+					bad += fmt.Sprintf(" last − first = (%g, %g): closing edge appended = %v;", dx, dy, got != 0)
+				}
+			}
+		}
+		r.check("W14", "VertexToLine|closing-edge-unless-last-repeats-first", app.Pos, bad == "", fmt.Sprintf("written-out comparison evaluated on %d offsets around the tolerance 1e-9;%s", n, bad))
+		r.floor("W14", 1)
+		return
+	}
+	if nEq != 1 {
+		bad += fmt.Sprintf(" %d vertex comparisons guard the closing edge (expected 1): %s;", nEq, shortKey(app.Cond.Key(), 300))
+	}
+	r.check("W14", "VertexToLine|closing-edge-unless-last-repeats-first", app.Pos, bad == "", "the closing vertex is appended iff closed and !first.Equals(last, tolerance);"+bad)
+	r.floor("W14", 1)
 }
